@@ -109,6 +109,34 @@ func (g *c1refgen) Program() string {
 		}
 		refs = append(refs, name+".x")
 	}
+	// a definition's struct-valued field reached BOTH through the definition and through a
+	// regular field that is just a reference to it (shared vertex), unified at one node in a
+	// random order with an extra undeclared field from a literal or from a further declaration
+	for _, h := range holders {
+		if !strings.HasPrefix(h, "#") || !g.r.Chance(2, 3) {
+			continue
+		}
+		al := "S" + h[1:]
+		lines = append(lines, al+": "+h)
+		ops := []string{al + ".x", h + ".x"}
+		extra := Pick(g.r, []string{"{d: 1}", "{d: _}", "{d?: 1}", "{d: {}}", "{a: _, d: 1}"})
+		name := "s" + strings.ToLower(h[1:])
+		switch g.r.Intn(4) {
+		case 0:
+			ops = append(ops, extra)
+			Shuffle(g.r, ops)
+			lines = append(lines, name+": "+strings.Join(ops, " & "))
+		case 1:
+			Shuffle(g.r, ops)
+			lines = append(lines, name+": "+ops[0], name+": "+ops[1], name+": "+extra)
+		case 2:
+			Shuffle(g.r, ops)
+			lines = append(lines, name+": "+ops[0]+" & ("+ops[1]+" & "+extra+")")
+		default:
+			Shuffle(g.r, ops)
+			lines = append(lines, name+": ("+ops[0]+" & "+extra+") & "+ops[1])
+		}
+	}
 	pick := func() string { return Pick(g.r, refs) }
 	uses := 2 + g.r.Intn(3)
 	names := []string{"y", "z", "w", "v", "u"}
@@ -118,9 +146,17 @@ func (g *c1refgen) Program() string {
 		case 0:
 			lines = append(lines, fmt.Sprintf("%s: %s & %s", n, pick(), pick()))
 		case 1:
-			lines = append(lines, fmt.Sprintf("%s: %s & %s & %s", n, pick(), pick(), g.body(0)))
+			extra := g.body(0)
+			if g.r.Chance(1, 2) {
+				// an extra, undeclared field to observe closedness
+				extra = Pick(g.r, []string{"{d: 1}", "{d: 1, a: _}", "{d?: 1}", "{d: {}}"})
+			}
+			lines = append(lines, fmt.Sprintf("%s: %s & %s & %s", n, pick(), pick(), extra))
 		case 2:
 			lines = append(lines, fmt.Sprintf("%s: %s", n, pick()), fmt.Sprintf("%s: %s", n, pick()))
+			if g.r.Chance(1, 2) {
+				lines = append(lines, fmt.Sprintf("%s: d: 1", n))
+			}
 		case 3:
 			lines = append(lines, fmt.Sprintf("%s: {%s, a: %s}", n, pick(), g.intC()))
 		case 4:
